@@ -684,15 +684,33 @@ func (in *Inst) linearize(evs []h.Ev, call, ret []int, quiesced int, regs []reg)
 					good = false
 				}
 			case 6:
+				// the registration that fired is one of the candidates still registered; which
+				// one is not observable from the slot alone: every choice is tried
+				var xs []int
 				for x, r := range state {
 					isCand := false
 					for _, c := range o.cands {
 						isCand = isCand || c == r.id
 					}
 					if r.ty == o.ty && r.slot == o.slot && regByID[r.id].o.Once && isCand {
-						state = append(state[:x:x], state[x+1:]...)
-						break
+						xs = append(xs, x)
 					}
+				}
+				if len(xs) > 1 {
+					placed[i] = true
+					for _, x := range xs {
+						state = append(append([]mreg{}, saved[:x]...), saved[x+1:]...)
+						if rec(k + 1) {
+							return true
+						}
+					}
+					placed[i] = false
+					state = saved
+					continue
+				}
+				if len(xs) == 1 {
+					x := xs[0]
+					state = append(state[:x:x], state[x+1:]...)
 				}
 			}
 			if good {
